@@ -1496,7 +1496,7 @@ pub fn run(ctx: &mut Ctx) {
     }
     let mut w = World::new();
     let thorough = ctx.tier == Tier::Thorough;
-    let objects = ctx.stage_budget((60_000, 600_000), if thorough { 12_000 } else { 2_000 }, 0, 80);
+    let objects = ctx.stage_budget((60_000, 2_400_000), if thorough { 12_000 } else { 2_000 }, 0, 80);
     let mut rng = ctx.rng("cases");
     let mut done = 0u64;
     let mut g = 0u64;
